@@ -267,7 +267,91 @@ def family():
     return F
 
 
-RUNNERS = {'chunk': run_chunk, 'single': run_single}
+# ---------------------------------------------------------------- run metadata with several batches in flight
+def op_meta_index(t, meta):
+    return np.full(len(t), meta['batch_index'], dtype=float)
+
+
+def op_meta_tag(t, meta):
+    return np.array([hash((meta['model_name'], meta['master_seed'])) % 1000] * len(t), dtype=float)
+
+
+def op_times10(a):
+    return 10.0 * a
+
+
+def sim_plus(t, batch_size=1, random_state=None):
+    return np.asarray(t, dtype=float) + random_state.randint(0, 3, size=batch_size)
+
+
+def _meta_model():
+    import elfi
+    m = elfi.ElfiModel(name='c03meta')
+    t = elfi.Prior('randint', 0, 5, model=m, name='t')
+    A = elfi.Operation(op_meta_index, t, model=m, name='A')
+    A.uses_meta = True
+    G = elfi.Operation(op_meta_tag, t, model=m, name='G')
+    G.uses_meta = True
+    elfi.Operation(op_times10, A, model=m, name='B')
+    elfi.Simulator(sim_plus, t, model=m, name='Y')
+    return m
+
+
+@guarded('C03')
+def run_pipeline(case):
+    """Batches are loaded (metadata, generator) when they are submitted and executed later: whatever the order of
+    submit / wait calls, batch i is computed with the metadata of batch i and equals batch i computed alone."""
+    import elfi
+    from elfi.model.elfi_model import ComputationContext
+    from .. import models
+    models.native_client()
+    bs, seed = case['bs'], case['seed']
+    names = ['A', 'B', 'G', 'Y', 't']
+    with pin.pinned(0):
+        bh = elfi.client.BatchHandler(_meta_model(), context=ComputationContext(batch_size=bs, seed=seed),
+                                      output_names=names)
+        got = {}
+        for op in case['ops']:
+            if op == 's':
+                bh.submit()
+            else:
+                batch, i = bh.wait_next()
+                got[i] = {k: np.asarray(batch[k], dtype=float).copy() for k in names}
+        n = 0
+        for i, b in sorted(got.items()):
+            n += 1
+            alone = elfi.client.BatchHandler(_meta_model(), context=ComputationContext(batch_size=bs, seed=seed),
+                                             output_names=names).compute(i)
+            what = {'case': case, 'batch': i}
+            if not np.array_equal(b['A'], np.full(bs, float(i))) or not np.array_equal(b['B'], np.full(bs, 10.0 * i)):
+                return bad('C03:run-metadata-of-another-batch',
+                           dict(what, batch_index_seen_by_the_node=b['A'].tolist(), downstream=b['B'].tolist()))
+            for k in names:
+                if not np.array_equal(b[k], np.asarray(alone[k], dtype=float)):
+                    return bad('C03:pipelined-batch-differs-from-the-batch-computed-alone',
+                               dict(what, node=k, got=b[k].tolist(), alone=np.asarray(alone[k]).tolist()))
+    r = ok(outcome=digest(sorted((i, b['Y'].tolist()) for i, b in got.items())), pipelined_batches=n)
+    r.update(evals=1, distinct=1)
+    return r
+
+
+def pipeline_cases(q):
+    seqs = []
+
+    def rec(prefix, sub, wait):
+        if prefix and sub == wait:
+            seqs.append(prefix)
+        if len(prefix) >= (6 if q else 8):
+            return
+        if sub - wait < 3:
+            rec(prefix + 's', sub + 1, wait)
+        if wait < sub:
+            rec(prefix + 'w', sub, wait + 1)
+    rec('', 0, 0)
+    return [{'kind': 'pipeline', 'ops': sq, 'bs': bs, 'seed': sd} for sq in seqs for bs in (1, 2) for sd in (0, 3)]
+
+
+RUNNERS = {'chunk': run_chunk, 'single': run_single, 'pipeline': run_pipeline}
 
 
 def replay(case):
@@ -324,6 +408,8 @@ def run(ctx):
             for sup in R.subsets(names, max_size=(1 if q else 2)):
                 singles.append({'kind': 'single', 'prog': prog, 'outputs': outs, 'with_values': sup, 'bs': 2})
     ctx.run_cases(run_single, singles, 'family', sample_every=max(1, len(singles) // 4))
+    pc = pipeline_cases(q)
+    ctx.run_cases(run_pipeline, pc, 'pipelined-metadata')
     ctx.extra['programs'] = total_programs + len(fam)
     ctx.rule = ('programs: every creation sequence of <= n nodes over kinds {Constant, Operation, Prior, Simulator, '
                 'Summary, Discrepancy}, ordered parent tuples among earlier nodes, positional/named edge styles, '
@@ -336,9 +422,13 @@ def run(ctx):
         'the order of named parents inside a discrepancy\'s observed tuple is not defined by the statement)',
         'uses_meta only on Operation/Simulator/Discrepancy nodes (whether the observed twin of a summary receives '
         'meta is not defined by the statement)',
-        'a non-observable parent contributes its value to an observed twin; any exception counts as rejection; when '
-        'some observed data of the graph depends on a stochastic node but is not needed for the request, both '
-        'rejecting the graph and evaluating it correctly are accepted',
+        'a non-observable parent contributes its value to an observed twin; any exception counts as rejection; a graph is '
+        'to be rejected exactly when observed data NEEDED for the requested outputs depends on a stochastic node '
+        '(nothing behind a given observation is needed); only when values are supplied through with_values both '
+        'rejecting (the check is made at compile time, before the values are known) and evaluating are accepted',
+        'pipelined-metadata: one model with two metadata-using operations, every sequence of submit / wait_next calls on a '
+        'BatchHandler (in-process client, at most 3 batches in flight, all batches waited for) up to length %d: every '
+        'batch must see its own batch index and equal the batch computed alone' % (6 if q else 8),
         'node names are chosen so that creation order differs from name order',
         'edge declaration: positional parents through the constructor, and (Operation/Simulator nodes with >= 2 positional '
         'parents) additionally one by one with explicit indices in descending order via model.add_edge; run-metadata '
